@@ -415,11 +415,17 @@ package common
 //@   loop 1 invariant rangeindex + 2 < len(tx.Outputs) ==> tx.Outputs[rangeindex + 2] != nil
 
 //@ func (tx *Transaction) validateWithdrawalClaim
-//@   property C05
+//@   property C05, C17
 //@   trustpre NewIntegerFromString -- (C33) its argument here is a string constant; that the constant is a non-negative decimal is assumed
 //@   requires tx != nil && store != nil && UtxoMapOK(inputs) && OutputsOK(tx) && len(tx.Outputs) >= 1 && snapTime >= CustodianGenesis(store)
 //@   modifies nothing
+//@   -- C17: an accepted withdrawal claim has the claim output first and ONLY script outputs after it: in particular no withdrawal-submission
+//@   -- (0xa1) output, whose value would leave the set of unconsumed outputs (UnspentOutputs skips it) while writeTotalInAsset subtracts
+//@   -- submission outputs only for submission-typed transactions. Hypothesis `nonmat == 0` of storage lemma SupplyStepOther for the claim class.
+//@   ensures [c17-claim-outputs] err == nil ==> forall j int :: 1 <= j && j < len(tx.Outputs) ==> tx.Outputs[j].Type == OutputTypeScript
+//@   ensures [c17-claim-first] err == nil ==> tx.Outputs[0].Type == OutputTypeWithdrawalClaim
 //@   loop 1 invariant rangeindex + 2 < len(tx.Outputs) ==> tx.Outputs[rangeindex + 2] != nil
+//@   loop 1 invariant [c17] forall j int :: 1 <= j && j <= rangeindex + 1 ==> tx.Outputs[j].Type == OutputTypeScript
 
 //@ func (tx *Transaction) validateNodePledge
 //@   property C05
